@@ -91,3 +91,42 @@ def stream_time_harness(shape, kind):
                   "ttconv.time_code:SmpteTimeCode.to_frames", "ttconv.time_code:SmpteTimeCode.to_temporal_offset"],
                  "replayers.c08:times", {"shape": shape, "kind": kind},
                  "begin/end are exact frame multiples, not before the line's time code, within the window of the triggering word (all time codes)")
+
+
+def cells_to_percentages_harness(kind):
+  """`on the same rows`: the step between cell coordinates (rows, columns of the 608 grid) and the percentages the document carries.
+  For ALL integers x, y (cells) and the 32 x 15 grid the SCC reader uses: the result is in percent, each component is the integer
+  nearest to 100*cells/size (which of the two nearest integers a tie goes to is not judged: the property does not say, and pyvc's
+  float model over-approximates the quotient by one rounding error, so `ties to even` is not provable in it), x/columns and y/rows are not exchanged, and distinct rows stay distinct
+  and in order (100/15 > 1 per row, so rounding cannot merge two rows)."""
+  import ttconv.scc.utils as U
+  import ttconv.style_properties as S
+
+  def run(ctx):
+    x, y = core.sym_int("x"), core.sym_int("y")
+    assume((x >= -64) & (x <= 64) & (y >= -32) & (y <= 32))
+    res = model.CellResolutionType(rows=15, columns=32)
+    arg = U.get_position_from_offsets(x, y) if kind == "origin" else U.get_extent_from_dimensions(x, y)
+    if kind == "origin":
+      prove(core.vc_is(arg.x.units, S.LengthType.Units.c) & core.vc_is(arg.y.units, S.LengthType.Units.c), "built-in-cells")
+      prove((arg.x.value == x) & (arg.y.value == y), "x-y-not-exchanged-on-construction")
+    else:
+      prove((arg.width.value == x) & (arg.height.value == y), "width-height-not-exchanged-on-construction")
+    st, out = core.call_real(U.convert_cells_to_percentages, arg, res, allowed=())
+    prove(st == "ok", "no-exception-on-cell-units")
+    a, b = (out.x, out.y) if kind == "origin" else (out.width, out.height)
+    prove(core.vc_is(a.units, S.LengthType.Units.pct) & core.vc_is(b.units, S.LengthType.Units.pct), "result-in-percent")
+    for nm, got, cells, size in (("columns", a.value, x, 32), ("rows", b.value, y, 15)):
+      d = got * size - cells * 100                     # exact integers: got is an int (round), so d is size * rounding error
+      prove((2 * d <= size) & (2 * d >= -size), f"{nm}:nearest-integer-to-100*cells/size")
+    # order of rows: y and y + 1 never map to the same percentage
+    st2, out2 = core.call_real(U.convert_cells_to_percentages,
+                               U.get_position_from_offsets(x, y + 1) if kind == "origin" else U.get_extent_from_dimensions(x, y + 1), res, allowed=())
+    b2 = out2.y if kind == "origin" else out2.height
+    prove(b2.value > b.value, "rows:next-row-strictly-below")
+
+  return Harness(f"scc.cells-to-percent[{kind}]", run,
+                 ["ttconv.scc.utils:convert_cells_to_percentages", "ttconv.scc.utils:get_position_from_offsets",
+                  "ttconv.scc.utils:get_extent_from_dimensions"],
+                 "replayers.c08:cells", {"kind": kind},
+                 "on the same rows: cell coordinates -> percentages is the nearest integer per component, x/y kept apart, rows stay distinct and ordered")
